@@ -21,7 +21,7 @@ import time
 ROOT = os.path.dirname(os.path.dirname(os.path.abspath(__file__)))
 COQ = os.path.join(ROOT, "coq")
 BUILD = os.path.join(ROOT, "build")
-REPO = "/repo"
+REPO = os.environ.get("AV_REPO", "/repo")   # tree under test (AV_REPO lets a scratch worktree be checked instead)
 VENV_PY = "/venv/bin/python"
 GUARD = "AUTOBAHN_VERIF"
 
@@ -50,7 +50,8 @@ def sh(cmd, timeout=None, cwd=None, env=None, input=None):
 
 def impl_env(nvx=None, extra=None):
     env = dict(os.environ)
-    env["PYTHONPATH"] = "/repo/src" + (":" + os.path.join(ROOT, "harness"))
+    env["PYTHONPATH"] = REPO + "/src" + (":" + os.path.join(ROOT, "harness"))
+    env["AV_REPO"] = REPO
     env["PYTHONHASHSEED"] = "0"
     env["PIP_NO_INDEX"] = "1"
     env[GUARD] = "1"
